@@ -27,7 +27,10 @@ import (
 	"go/parser"
 	"go/printer"
 	"go/token"
+	"crypto/sha256"
+	"encoding/hex"
 	"os"
+	"os/exec"
 	"path/filepath"
 	"sort"
 	"strconv"
@@ -35,6 +38,27 @@ import (
 )
 
 const fxModule = "github.com/functionx/fx-core/v8"
+
+// keeper packages of the dependencies whose message servers are registered on fx-core's router
+var depKeeperPkgs = []string{
+	"github.com/cosmos/cosmos-sdk/x/auth/keeper",
+	"github.com/cosmos/cosmos-sdk/x/bank/keeper",
+	"github.com/cosmos/cosmos-sdk/x/consensus/keeper",
+	"github.com/cosmos/cosmos-sdk/x/crisis/keeper",
+	"github.com/cosmos/cosmos-sdk/x/distribution/keeper",
+	"github.com/cosmos/cosmos-sdk/x/gov/keeper",
+	"github.com/cosmos/cosmos-sdk/x/mint/keeper",
+	"github.com/cosmos/cosmos-sdk/x/slashing/keeper",
+	"github.com/cosmos/cosmos-sdk/x/staking/keeper",
+	"cosmossdk.io/x/upgrade/keeper",
+	"github.com/cosmos/ibc-go/v8/modules/core/keeper",
+	"github.com/cosmos/ibc-go/v8/modules/apps/transfer/keeper",
+	"github.com/evmos/ethermint/x/evm/keeper",
+	"github.com/evmos/ethermint/x/feemarket/keeper",
+}
+
+// ibc-go's gov-only messages carry the authority in a field called Signer
+var signerAuthorityMsgs = map[string]bool{"MsgUpdateParams": true, "MsgRecoverClient": true, "MsgIBCSoftwareUpgrade": true}
 
 type row struct {
 	URL, File, Recv, Name, Req string
@@ -50,6 +74,7 @@ type row struct {
 type pbInfo struct {
 	url       map[string]string // Go type name -> proto full name
 	authority map[string]bool   // Go type name -> has field Authority
+	signer    map[string]bool   // Go type name -> has field Signer
 }
 
 var fset = token.NewFileSet()
@@ -72,7 +97,7 @@ func loadPB(dir string) *pbInfo {
 	if p, ok := pbCache[dir]; ok {
 		return p
 	}
-	p := &pbInfo{url: map[string]string{}, authority: map[string]bool{}}
+	p := &pbInfo{url: map[string]string{}, authority: map[string]bool{}, signer: map[string]bool{}}
 	pbCache[dir] = p
 	files, _ := filepath.Glob(filepath.Join(dir, "*.pb.go"))
 	for _, f := range files {
@@ -104,6 +129,9 @@ func loadPB(dir string) *pbInfo {
 						for _, nm := range fl.Names {
 							if nm.Name == "Authority" {
 								p.authority[x.Name.Name] = true
+							}
+							if nm.Name == "Signer" {
+								p.signer[x.Name.Name] = true
 							}
 						}
 					}
@@ -142,9 +170,13 @@ func hasImpureCall(n ast.Node) bool {
 	return found
 }
 
+// authField: name of the request field that carries the authority for the handler being analysed
+// ("Authority", or "Signer" for ibc-go's gov-only messages)
+var authField = "Authority"
+
 func mentionsAuthority(e ast.Expr, req string) bool {
 	s := src(e)
-	return s == req+".Authority" || s == req+".GetAuthority()"
+	return s == req+"."+authField || s == req+".Get"+authField+"()"
 }
 
 // returnsError: the block ends by returning a non-nil last result
@@ -220,6 +252,70 @@ func guardOf(s ast.Stmt, req string) (kind, against string, ok bool) {
 	return "", "", false
 }
 
+// helperGuardOf recognises
+//
+//	if err := k.validateAuthority(req.Authority); err != nil { return nil, err }
+//
+// where the helper, defined in the same file, compares its parameter with <recv>.authority using != and
+// returns an error, after nothing but address-format checks.
+func helperGuardOf(s ast.Stmt, req string, af *ast.File) (kind, against string, ok bool) {
+	ifs, isIf := s.(*ast.IfStmt)
+	if !isIf || ifs.Init == nil || ifs.Else != nil || src(ifs.Cond) != "err != nil" || !returnsError(ifs.Body) {
+		return
+	}
+	as, isAs := ifs.Init.(*ast.AssignStmt)
+	if !isAs || len(as.Rhs) != 1 {
+		return
+	}
+	call, isCall := as.Rhs[0].(*ast.CallExpr)
+	if !isCall || len(call.Args) != 1 || !mentionsAuthority(call.Args[0], req) {
+		return
+	}
+	sel, isSel := call.Fun.(*ast.SelectorExpr)
+	if !isSel {
+		return
+	}
+	for _, d := range af.Decls {
+		fd, isFd := d.(*ast.FuncDecl)
+		if !isFd || fd.Name.Name != sel.Sel.Name || fd.Body == nil || fd.Type.Params == nil || len(fd.Type.Params.List) != 1 || len(fd.Type.Params.List[0].Names) != 1 {
+			continue
+		}
+		param := fd.Type.Params.List[0].Names[0].Name
+		for _, hs := range fd.Body.List {
+			hif, isHif := hs.(*ast.IfStmt)
+			if !isHif {
+				return "CmpOther", sel.Sel.Name, true
+			}
+			if be, isBe := hif.Cond.(*ast.BinaryExpr); isBe && hif.Init == nil && be.Op == token.NEQ {
+				var other ast.Expr
+				if src(be.X) == param {
+					other = be.Y
+				} else if src(be.Y) == param {
+					other = be.X
+				}
+				if other != nil && helperReturnsErr(hif.Body) {
+					return "CmpNeq", src(other), true
+				}
+				return "CmpOther", sel.Sel.Name, true
+			}
+			// allowed before the comparison: an address-format check of the parameter
+			if !strings.Contains(src(hif), "StringToBytes("+param+")") {
+				return "CmpOther", sel.Sel.Name, true
+			}
+		}
+		return "CmpOther", sel.Sel.Name, true
+	}
+	return "CmpOther", sel.Sel.Name, true
+}
+
+func helperReturnsErr(b *ast.BlockStmt) bool {
+	if b == nil || len(b.List) == 0 {
+		return false
+	}
+	r, ok := b.List[len(b.List)-1].(*ast.ReturnStmt)
+	return ok && len(r.Results) == 1 && src(r.Results[0]) != "nil"
+}
+
 // delegateOf recognises the crosschain router shape:
 //
 //	if server, err := k.lookup(msg.GetChainName()); err != nil { return nil, err } else { return server.Name(ctx, msg) }
@@ -286,6 +382,149 @@ func main() {
 	lookups := map[string]bool{} // "file|func" of lookup helpers used by delegating handlers
 	funcs := map[string]*ast.FuncDecl{}
 	nfiles := 0
+	// resolveDir: directory of an import path at the version /repo's go.mod selects
+	dirCache := map[string]string{}
+	resolveDir := func(ipath string) string {
+		if d, ok := dirCache[ipath]; ok {
+			return d
+		}
+		d := ""
+		if strings.HasPrefix(ipath, fxModule+"/") {
+			d = filepath.Join(repo, strings.TrimPrefix(ipath, fxModule+"/"))
+		} else {
+			cmd := exec.Command("go", "list", "-mod=readonly", "-f", "{{.Dir}}", ipath)
+			cmd.Dir = repo
+			cmd.Env = append(os.Environ(), "GOFLAGS=-mod=readonly", "GOPROXY=off", "GOSUMDB=off", "GOTOOLCHAIN=local")
+			if out, err := cmd.Output(); err == nil {
+				d = strings.TrimSpace(string(out))
+			}
+		}
+		dirCache[ipath] = d
+		return d
+	}
+	depFiles := map[string]string{} // dependency file label -> sha256 (files that contributed a row)
+	processFile := func(path, rel string, dep bool) {
+	af, perr := parser.ParseFile(fset, path, nil, 0)
+	if perr != nil {
+		die("cannot parse %s: %v", path, perr)
+	}
+	nfiles++
+	imports := map[string]string{} // local name -> import path
+	for _, im := range af.Imports {
+		p, _ := strconv.Unquote(im.Path.Value)
+		name := filepath.Base(p)
+		if im.Name != nil {
+			name = im.Name.Name
+		}
+		imports[name] = p
+	}
+	for _, d := range af.Decls {
+		fd, ok := d.(*ast.FuncDecl)
+		if !ok || fd.Body == nil {
+			continue
+		}
+		if fd.Recv != nil && len(fd.Recv.List) == 1 {
+			funcs[rel+"|"+fd.Name.Name] = fd
+		}
+		if fd.Recv == nil || len(fd.Recv.List) != 1 || fd.Type.Params == nil || fd.Type.Results == nil {
+			continue
+		}
+		// flatten params
+		var ptypes []ast.Expr
+		var pnames []string
+		for _, f := range fd.Type.Params.List {
+			n := len(f.Names)
+			if n == 0 {
+				n = 1
+			}
+			for i := 0; i < n; i++ {
+				ptypes = append(ptypes, f.Type)
+				if len(f.Names) > i {
+					pnames = append(pnames, f.Names[i].Name)
+				} else {
+					pnames = append(pnames, "_")
+				}
+			}
+		}
+		if len(ptypes) != 2 || src(ptypes[0]) != "context.Context" || len(fd.Type.Results.List) != 2 {
+			continue
+		}
+		st, ok := ptypes[1].(*ast.StarExpr)
+		if !ok {
+			continue
+		}
+		sel, ok := st.X.(*ast.SelectorExpr)
+		if !ok || !strings.HasPrefix(sel.Sel.Name, "Msg") {
+			continue
+		}
+		pkgName := src(sel.X)
+		typeName := sel.Sel.Name
+		req := pnames[1]
+		ipath := imports[pkgName]
+		tdir := resolveDir(ipath)
+		if tdir == "" {
+			if dep {
+				continue
+			}
+			die("%s: cannot locate package %s of request type %s", rel, ipath, typeName)
+		}
+		pb := loadPB(tdir)
+		url := pb.url[typeName]
+		authField = "Authority"
+		if !pb.authority[typeName] {
+			if pb.signer[typeName] && signerAuthorityMsgs[typeName] && strings.Contains(ipath, "/ibc-go/") {
+				authField = "Signer"
+			} else {
+				continue
+			}
+		}
+		if url == "" {
+			die("%s: no proto.RegisterType for %s.%s in %s", rel, pkgName, typeName, ipath)
+		}
+		recv := src(fd.Recv.List[0].Type)
+		r := row{URL: url, File: rel, Recv: recv, Name: fd.Name.Name, Req: pkgName + "." + typeName,
+			GuardIdx: -1, Kind: "CmpNone", NStmts: len(fd.Body.List)}
+		if dn, via, ok := delegateOf(fd.Body, req); ok {
+			r.Delegate, r.DelegateVia = dn, via
+			lookups[rel+"|"+via] = true
+		} else {
+			locals := map[string]ast.Expr{} // x := <expr> seen before the guard
+			for i, s := range fd.Body.List {
+				if k, ag, ok := guardOf(s, req); ok {
+					r.GuardIdx, r.Kind, r.Against = i, k, ag
+					if e, isLocal := locals[ag]; isLocal { // compared with a local: report what it was computed from
+						r.Against = src(e)
+					}
+					break
+				}
+				if k, ag, ok := helperGuardOf(s, req, af); ok {
+					r.GuardIdx, r.Kind, r.Against = i, k, ag
+					break
+				}
+				if as, ok := s.(*ast.AssignStmt); ok && as.Tok == token.DEFINE && len(as.Lhs) == 1 && len(as.Rhs) == 1 {
+					locals[src(as.Lhs[0])] = as.Rhs[0]
+				}
+				if hasImpureCall(s) {
+					r.PreEffect = true
+				}
+			}
+			if r.GuardIdx < 0 {
+				r.PreEffect = false
+			}
+		}
+		if dep {
+			if _, ok := depFiles[rel]; !ok {
+				bz, err := os.ReadFile(path)
+				if err != nil {
+					die("%v", err)
+				}
+				h := sha256.Sum256(bz)
+				depFiles[rel] = hex.EncodeToString(h[:])
+			}
+		}
+		rows = append(rows, r)
+	}
+	}
 	for _, top := range []string{"x", "app"} {
 		_ = filepath.Walk(filepath.Join(repo, top), func(path string, info os.FileInfo, err error) error {
 			if err != nil || info.IsDir() || !strings.HasSuffix(path, ".go") || strings.HasSuffix(path, "_test.go") ||
@@ -293,104 +532,35 @@ func main() {
 				strings.Contains(path, "/testutil/") {
 				return nil
 			}
-			af, perr := parser.ParseFile(fset, path, nil, 0)
-			if perr != nil {
-				die("cannot parse %s: %v", path, perr)
-			}
-			nfiles++
 			rel, _ := filepath.Rel(repo, path)
-			imports := map[string]string{} // local name -> import path
-			for _, im := range af.Imports {
-				p, _ := strconv.Unquote(im.Path.Value)
-				name := filepath.Base(p)
-				if im.Name != nil {
-					name = im.Name.Name
-				}
-				imports[name] = p
-			}
-			for _, d := range af.Decls {
-				fd, ok := d.(*ast.FuncDecl)
-				if !ok || fd.Body == nil {
-					continue
-				}
-				if fd.Recv != nil && len(fd.Recv.List) == 1 {
-					funcs[rel+"|"+fd.Name.Name] = fd
-				}
-				if fd.Recv == nil || len(fd.Recv.List) != 1 || fd.Type.Params == nil || fd.Type.Results == nil {
-					continue
-				}
-				// flatten params
-				var ptypes []ast.Expr
-				var pnames []string
-				for _, f := range fd.Type.Params.List {
-					n := len(f.Names)
-					if n == 0 {
-						n = 1
-					}
-					for i := 0; i < n; i++ {
-						ptypes = append(ptypes, f.Type)
-						if len(f.Names) > i {
-							pnames = append(pnames, f.Names[i].Name)
-						} else {
-							pnames = append(pnames, "_")
-						}
-					}
-				}
-				if len(ptypes) != 2 || src(ptypes[0]) != "context.Context" || len(fd.Type.Results.List) != 2 {
-					continue
-				}
-				st, ok := ptypes[1].(*ast.StarExpr)
-				if !ok {
-					continue
-				}
-				sel, ok := st.X.(*ast.SelectorExpr)
-				if !ok || !strings.HasPrefix(sel.Sel.Name, "Msg") {
-					continue
-				}
-				pkgName := src(sel.X)
-				typeName := sel.Sel.Name
-				req := pnames[1]
-				ipath := imports[pkgName]
-				url, hasAuth := "", false
-				if strings.HasPrefix(ipath, fxModule+"/") {
-					pb := loadPB(filepath.Join(repo, strings.TrimPrefix(ipath, fxModule+"/")))
-					url = pb.url[typeName]
-					hasAuth = pb.authority[typeName]
-					if url == "" {
-						die("%s: no proto.RegisterType for %s.%s in %s", rel, pkgName, typeName, ipath)
-					}
-				} else {
-					// request type defined outside fx-core: keep it only if the body reads the authority
-					url = "?" + ipath + "." + typeName
-				}
-				body := src(fd.Body)
-				if !hasAuth && !strings.Contains(body, req+".Authority") && !strings.Contains(body, req+".GetAuthority()") {
-					continue
-				}
-				recv := src(fd.Recv.List[0].Type)
-				r := row{URL: url, File: rel, Recv: recv, Name: fd.Name.Name, Req: pkgName + "." + typeName,
-					GuardIdx: -1, Kind: "CmpNone", NStmts: len(fd.Body.List)}
-				if dn, via, ok := delegateOf(fd.Body, req); ok {
-					r.Delegate, r.DelegateVia = dn, via
-					lookups[rel+"|"+via] = true
-				} else {
-					for i, s := range fd.Body.List {
-						if k, ag, ok := guardOf(s, req); ok {
-							r.GuardIdx, r.Kind, r.Against = i, k, ag
-							break
-						}
-						if hasImpureCall(s) {
-							r.PreEffect = true
-						}
-					}
-					if r.GuardIdx < 0 {
-						r.PreEffect = false
-					}
-				}
-				rows = append(rows, r)
-			}
+			processFile(path, rel, false)
 			return nil
 		})
+	}
+	// dependency message servers that are routable in fx-core's app, at the versions go.mod selects
+	modcache := ""
+	{
+		cmd := exec.Command("go", "env", "GOMODCACHE")
+		out, _ := cmd.Output()
+		modcache = strings.TrimSpace(string(out))
+	}
+	for _, kp := range depKeeperPkgs {
+		dir := resolveDir(kp)
+		if dir == "" {
+			die("cannot locate dependency package %s (go list failed in %s)", kp, repo)
+		}
+		files, _ := filepath.Glob(filepath.Join(dir, "*.go"))
+		sort.Strings(files)
+		for _, f := range files {
+			if strings.HasSuffix(f, "_test.go") || strings.HasSuffix(f, ".pb.go") || strings.HasSuffix(f, ".pb.gw.go") {
+				continue
+			}
+			label := f
+			if modcache != "" && strings.HasPrefix(f, modcache+"/") {
+				label = strings.TrimPrefix(f, modcache+"/")
+			}
+			processFile(f, label, true)
+		}
 	}
 	if len(rows) == 0 {
 		die("found no authority-carrying message handler under %s/{x,app} (%d files parsed)", repo, nfiles)
@@ -481,6 +651,19 @@ func main() {
 			sb.WriteString(";\n  ")
 		}
 		fmt.Fprintf(&sb, "mk_lookup %s %s %s", coqStr(l.File), coqStr(l.Name), coqStr(l.Calls))
+	}
+	sb.WriteString("].\n\n")
+	var dfs []string
+	for f := range depFiles {
+		dfs = append(dfs, f)
+	}
+	sort.Strings(dfs)
+	sb.WriteString("(* dependency sources the rows above were read from, at the versions go.mod selects *)\nDefinition gen_dep_files : list (string * string) :=\n [")
+	for i, f := range dfs {
+		if i > 0 {
+			sb.WriteString(";\n  ")
+		}
+		fmt.Fprintf(&sb, "(%s, %s)", coqStr(f), coqStr(depFiles[f]))
 	}
 	sb.WriteString("].\n\n")
 	fmt.Fprintf(&sb, "Definition gen_authaddr_expr : string := %s.\n", coqStr(authExpr))
